@@ -23,7 +23,7 @@ type scenario struct {
 	prot    map[string][]byte
 	s, r, g int
 	damage  func(rng *rand.Rand, sc *scenario, disk map[string][]byte) []string // returns descriptions
-	volLoss string                                                               // none | some | all | keepfirstlast
+	volLoss string                                                              // none | some | all | keepfirstlast
 	dc      bool
 }
 
